@@ -6,7 +6,7 @@ Parsed files are cached (pickle) next to the dump, keyed by the dump's content h
 import hashlib, os, pickle, re
 from dataclasses import dataclass, field
 
-PARSER_VERSION = 8
+PARSER_VERSION = 9
 
 
 @dataclass
@@ -70,7 +70,7 @@ def strip_generics(name):
     """remove every `::<...>` turbofish group (balanced) from a path"""
     out, i, n = [], 0, len(name)
     while i < n:
-        if name.startswith("::<", i):
+        if name.startswith("::<", i) and not name.startswith("::<impl at ", i):
             d, j = 0, i + 2
             while j < n:
                 if name[j] == "<": d += 1
